@@ -236,6 +236,78 @@ def check_upward_exposed(rep, mod):
         R.notes.append(nt)
 
 
+def check_scratch_clear(rep, mod):
+    """isal_update_histogram documents hash_table as temporary space: the result must not depend on what it held.  Every
+    implementation has to overwrite the whole array before the first lookup."""
+    import asmconst, mirror, fieldinit
+    from asmdb import REG64
+    R = rep.rule('I-SCRATCH-CLEAR', 'isal_update_histogram (C and both asm implementations): the bytes stored by the constant-trip-count initialisation loop (constant propagation through the loop, ASMCONST) '
+                 '/ by the memset (definite-assignment summary) cover all of histogram->hash_table, and no path from the entry reaches a read of hash_table without running the initialisation', floor=3, unit='implementations')
+    v, drop = mirror.c_values('default', ['igzip_lib.h'], [('off', 'offsetof(struct isal_huff_histogram, hash_table)'), ('size', 'sizeof(((struct isal_huff_histogram *) 0)->hash_table)')], 'c15_hist')
+    if drop:
+        raise AnalysisBroken('struct isal_huff_histogram.hash_table not found')
+    lo, hi = v['off'], v['off'] + v['size']
+    res, _ = provenance.analyse('default')
+    n = 0
+    for sym, info in sorted(res.items()):
+        if info['fam']['family'] != 'igzip_histogram':
+            continue
+        n += 1
+        R.instance()
+        u, f, fl = info['unit'], info['func'], info['flow']
+        best = None
+        for a in f.addrs:
+            i = u.insns[a]
+            if i.mn == 'mov' and len(i.ops) == 2 and asmconst.IMM.match(i.ops[1]) and i.ops[0] in REG64:
+                acc, end, steps = asmconst.walk(u, f, fl, a)
+                st = [(x[3], x[4]) for x in acc if x[1] == 'store' and x[2] == 'HIST' and x[3] < hi and x[4] > lo]
+                if st and (best is None or len(st) > len(best[1])):
+                    best = (i, st, end)
+        if best is None:
+            R.fail('%s:%s' % (u.name, sym), 'no constant-count loop storing into histogram->hash_table found', key='I-SCRATCH-CLEAR|%s|loop' % sym)
+            continue
+        i0, st, end = best
+        ok, gap = asmconst.covered(st, lo, hi)
+        R.check(ok, '%s: %s' % (u.name, u.where(i0, f)), 'the initialisation loop starting here stores %d blocks but leaves hash_table bytes from offset %s (entry %s of %d) unwritten: the histogram then depends on what the scratch area held before the call'
+                % (len(st), gap - lo if gap is not None else '?', (gap - lo) // 2 if gap is not None else '?', v['size'] // 2), key='I-SCRATCH-CLEAR|%s|cover' % sym,
+                sample='%s: %d stores cover hash_table[0..%d)' % (sym, len(st), v['size'] // 2))
+        # reads of hash_table (HIST accesses at a data-dependent offset or inside the array) only after the loop
+        reads = {x.insn.addr for x in info['accesses'] if x.kind in ('load', 'rmw') and provenance.base_tag(x.addr) == 'HIST' and (x.addr[2] is None or (x.addr[2][1] == 0 and lo <= x.addr[2][0] < hi))}
+        loop_insns = set()
+        a = i0.addr
+        seen = set()
+        work = [f.entry]
+        early = None
+        while work:
+            x = work.pop()
+            if x in seen or x == i0.addr:
+                continue
+            seen.add(x)
+            if x in reads:
+                early = x
+                break
+            work += u.succ(f, x)
+        R.check(early is None and bool(reads), '%s: %s' % (u.name, u.where(u.insns[early], f) if early else sym), 'hash_table is read on a path that does not run the initialisation loop' if early else 'no read of hash_table recognised',
+                key='I-SCRATCH-CLEAR|%s|order' % sym, sample='%s: %d hash_table reads, all after the clear' % (sym, len(reads)))
+    if n < 2:
+        raise AnalysisBroken('expected two asm histogram kernels, found %d' % n)
+    # portable C
+    R.instance()
+    A = fieldinit.Analysis(mod)
+    if 'isal_update_histogram_base' not in mod.funcs:
+        raise AnalysisBroken('isal_update_histogram_base not found')
+    _, MW, _ = A.summary('isal_update_histogram_base')
+    # the early return for length <= 0 writes nothing: take the must-write set of the paths that reach the scan loop = writes dominating the first hash_table read
+    f = mod.funcs['isal_update_histogram_base']
+    P = irrules.prov(mod, f)
+    ms = [i for i in f.all_insns() if i.op == 'call' and i.callee.startswith('llvm.memset') and any(a[0] == 'param' and a[1] == 2 and a[2] == lo for a in P.atoms(i.args[0][1]))]
+    okc = bool(ms) and re.match(r'^\d+$', ms[0].args[2][1]) and int(ms[0].args[2][1]) >= v['size']
+    rd = [i for i in f.all_insns() if i.op == 'load' and any(a[0] == 'param' and a[1] == 2 and a[2] is None for a in P.atoms(i.ops[0]))]
+    dom = bool(ms) and all(f.dominates(ms[0].block, i.block) for i in rd)
+    R.check(okc and dom and rd, mod.where(f, ms[0]) if ms else 'igzip/huff_codes.c:isal_update_histogram_base', 'the portable implementation must memset all %d bytes of hash_table before any lookup (memset found: %s, covers: %s, dominates %d reads: %s)'
+            % (v['size'], bool(ms), okc, len(rd), dom), key='I-SCRATCH-CLEAR|base', sample='isal_update_histogram_base: memset of %d bytes dominates %d table reads' % (v['size'], len(rd)))
+
+
 def check_init(rep, mod):
     """I-INIT / I-RESET on the three context structures"""
     R = rep.rule('I-RESET', 'isal_deflate_reset / isal_inflate_reset assign every field that the matching init assigns, except the documented user-set fields', floor=2, unit='context types')
@@ -314,5 +386,6 @@ def main(tier):
     check_asm(rep, RC, mod)
     check_init(rep, mod)
     check_upward_exposed(rep, mod)
+    check_scratch_clear(rep, mod)
     provenance.check_undef(rep, None, 'ALL', 130)
     return rep.finish()
